@@ -43,6 +43,18 @@ def skip_edge_net(b_first, heavy):
     return assign_ids(root)
 
 
+def two_writers_skip_net(k=2):
+    """a child `c` written by k parents of ONE layer while a longer path (through `d`) puts `c` two layers further down: the
+    writers are concurrent although `c` is not in the layer right below them"""
+    c = Bernoulli(0, 0.4)
+    d = Sum(children=[c, Bernoulli(0, 0.9)], weights=np.array([0.5, 0.5], dtype=np.float32))
+    parents = [Sum(children=[c, d], weights=np.array([0.5, 0.5], dtype=np.float32))]
+    for i in range(1, k):
+        parents.append(Sum(children=[c, Bernoulli(0, 0.1 + 0.8 * i / k)], weights=np.array([0.5, 0.5], dtype=np.float32)))
+    w = np.full(k, 1.0 / k, dtype=np.float32)
+    return assign_ids(Sum(children=parents, weights=w / w.sum()))
+
+
 def clt_product_net(rs):
     """products whose children are a Chow-Liu leaf (two columns) and univariate leaves: all leaves of one layer are reached by the
     same rows"""
@@ -263,7 +275,8 @@ def run(ctx):
     nets = [('fan2', fan_net(2)), ('fan5', fan_net(5)), ('fan16', fan_net(16)), ('fan4x3', fan_net(4, 3)),
             ('clt-under-product', clt_product_net(np.random.RandomState(np_seed(ctx.sub_rng('cltprod'))))),
             ('skip-edge-b-first', skip_edge_net(True, 0.97)), ('skip-edge-a-first', skip_edge_net(False, 0.97)),
-            ('skip-edge-balanced', skip_edge_net(True, 0.5))]
+            ('skip-edge-balanced', skip_edge_net(True, 0.5)), ('two-writers-skip-layer', two_writers_skip_net(2)),
+            ('eight-writers-skip-layer', two_writers_skip_net(8))]
     for k in range(10 if quick else 150):
         rs = np.random.RandomState(np_seed(ctx.sub_rng('dag', k)))
         nets.append((f'dag{k}', random_dag(rs)))
